@@ -1,4 +1,5 @@
 import Mochi.Lemmas.BrokerIndexSync
+import Mochi.Lemmas.Gather
 /-!
 # Who is written a publish: `publishToSubscribers`, entry by entry (C03)
 
@@ -379,5 +380,411 @@ theorem recipients_nodup (s : Server) (hw : WF s) (hcd : ConnDistinct s) (pk : M
     (hc.trans hc'.symm)
   subst this
   exact hne (vi.2.symm.trans vj.2)
+
+end Mochi.Broker
+
+/-! ## The subscriber map, declaratively: keys and merged No Local in terms of the matching index entries -/
+namespace Mochi.Topics
+
+/-- the map `m` holds for client `c` a (merged) subscription with property `P` -/
+def HasSub (P : Sub → Prop) (m : List (Str × Sub)) (c : Str) : Prop := ∃ sub, assocGet m c = some sub ∧ P sub
+
+/-- `P` is a disjunctive property of merged subscriptions: the merge has it iff one of the two has (the filter
+    under which the merge is filed does not matter) -/
+def MergeOr (P : Sub → Prop) : Prop := ∀ a b : Sub, P (a.merge b) ↔ P a ∨ P b
+
+theorem mergeOr_true : MergeOr (fun _ => True) := fun _ _ => ⟨fun _ => Or.inl trivial, fun _ => trivial⟩
+
+theorem mergeOr_noLocal : MergeOr (fun sub => sub.noLocal = true) := by
+  intro a b
+  show (if b.noLocal = true then true else a.noLocal) = true ↔ _
+  cases ha : a.noLocal <;> cases hb : b.noLocal <;> simp [ha, hb]
+
+theorem hasSub_gatherSubOne {P : Sub → Prop} (hP : MergeOr P) (topic : Str) (m : List (Str × Sub)) (e : Str × Sub)
+    (c : Str) :
+    HasSub P (gatherSubOne topic m e) c ↔
+      HasSub P m c ∨ (c = e.1 ∧ dollarExcluded e.2.filter topic = false ∧ P e.2) := by
+  unfold gatherSubOne
+  by_cases hd : dollarExcluded e.2.filter topic = true
+  · rw [if_pos hd]
+    constructor
+    · exact Or.inl
+    · rintro (h | ⟨_, h, _⟩)
+      · exact h
+      · rw [hd] at h; cases h
+  · have hd' : dollarExcluded e.2.filter topic = false := by simpa using hd
+    rw [if_neg hd]
+    unfold HasSub
+    cases hg : assocGet m e.1 with
+    | none =>
+      simp only [assocGet_assocSet]
+      by_cases hc : c = e.1
+      · subst hc
+        simp only [if_true, Option.some.injEq, exists_eq_left', hg, hd', true_and]
+        rw [hP]
+        constructor
+        · rintro (h | h) <;> exact Or.inr h
+        · rintro (⟨_, h, _⟩ | h)
+          · cases h
+          · exact Or.inl h
+      · simp only [hc, if_false, false_and, or_false]
+    | some cls =>
+      simp only [assocGet_assocSet]
+      by_cases hc : c = e.1
+      · subst hc
+        simp only [if_true, Option.some.injEq, exists_eq_left', hg, hd', true_and]
+        exact hP cls e.2
+      · simp only [hc, if_false, false_and, or_false]
+
+theorem hasSub_subs_fold {P : Sub → Prop} (hP : MergeOr P) (topic : Str) (entries : List (Str × Sub))
+    (m : List (Str × Sub)) (c : Str) :
+    HasSub P (entries.foldl (gatherSubOne topic) m) c ↔
+      HasSub P m c ∨ ∃ s, (c, s) ∈ entries ∧ dollarExcluded s.filter topic = false ∧ P s := by
+  induction entries generalizing m with
+  | nil => simp
+  | cons e rest ih =>
+    simp only [List.foldl_cons]
+    rw [ih, hasSub_gatherSubOne hP]
+    constructor
+    · rintro ((h | ⟨h1, h2, h3⟩) | ⟨s, hs, hx⟩)
+      · exact Or.inl h
+      · exact Or.inr ⟨e.2, by rw [h1]; simp, h2, h3⟩
+      · exact Or.inr ⟨s, List.mem_cons_of_mem _ hs, hx⟩
+    · rintro (h | ⟨s, hs, hx⟩)
+      · exact Or.inl (Or.inl h)
+      · rcases List.mem_cons.mp hs with h | h
+        · left; right; rw [← h]; exact ⟨rfl, hx⟩
+        · exact Or.inr ⟨s, h, hx⟩
+
+/-- the merged subscriptions after gathering along a visit list -/
+theorem hasSub_fold {P : Sub → Prop} (hP : MergeOr P) (ns : List Node) (topic : Str) (L : List Gather)
+    (acc : Subscribers) (c : Str) :
+    HasSub P (L.foldl (gatherStep ns topic) acc).subs c ↔
+      HasSub P acc.subs c ∨
+      ∃ q, Gather.subs q ∈ L ∧ ∃ n, getNode ns q = some n ∧
+        ∃ s, (c, s) ∈ n.subs ∧ dollarExcluded s.filter topic = false ∧ P s := by
+  induction L generalizing acc with
+  | nil => simp
+  | cons g rest ih =>
+    simp only [List.foldl_cons]
+    rw [ih]
+    cases g with
+    | subs p =>
+      simp only [gatherStep]
+      cases hn : getNode ns p with
+      | none =>
+        simp only
+        constructor
+        · rintro (h | ⟨q, hq, n, hgn, s, hs, hx⟩)
+          · exact Or.inl h
+          · exact Or.inr ⟨q, List.mem_cons_of_mem _ hq, n, hgn, s, hs, hx⟩
+        · rintro (h | ⟨q, hq, n, hgn, s, hs, hx⟩)
+          · exact Or.inl h
+          · rcases List.mem_cons.mp hq with h | h
+            · injection h with h; subst h; rw [hn] at hgn; cases hgn
+            · exact Or.inr ⟨q, h, n, hgn, s, hs, hx⟩
+      | some node =>
+        simp only
+        rw [hasSub_subs_fold hP]
+        constructor
+        · rintro ((h | ⟨s, hs, hx⟩) | ⟨q, hq, n, hgn, s, hs, hx⟩)
+          · exact Or.inl h
+          · exact Or.inr ⟨p, by simp, node, hn, s, hs, hx⟩
+          · exact Or.inr ⟨q, List.mem_cons_of_mem _ hq, n, hgn, s, hs, hx⟩
+        · rintro (h | ⟨q, hq, n, hgn, s, hs, hx⟩)
+          · exact Or.inl (Or.inl h)
+          · rcases List.mem_cons.mp hq with h | h
+            · injection h with h; subst h; rw [hn] at hgn; injection hgn with hgn; subst hgn
+              exact Or.inl (Or.inr ⟨s, hs, hx⟩)
+            · exact Or.inr ⟨q, h, n, hgn, s, hs, hx⟩
+    | shared p =>
+      have : (gatherStep ns topic acc (Gather.shared p)).subs = acc.subs := by
+        simp only [gatherStep]; cases getNode ns p <;> simp only <;> split <;> rfl
+      rw [this]
+      constructor
+      · rintro (h | ⟨q, hq, rest⟩)
+        · exact Or.inl h
+        · exact Or.inr ⟨q, List.mem_cons_of_mem _ hq, rest⟩
+      · rintro (h | ⟨q, hq, rest⟩)
+        · exact Or.inl h
+        · rcases List.mem_cons.mp hq with h | h
+          · cases h
+          · exact Or.inr ⟨q, h, rest⟩
+    | inline p =>
+      have : (gatherStep ns topic acc (Gather.inline p)).subs = acc.subs := by
+        simp only [gatherStep]; cases getNode ns p <;> simp only <;> split <;> rfl
+      rw [this]
+      constructor
+      · rintro (h | ⟨q, hq, rest⟩)
+        · exact Or.inl h
+        · exact Or.inr ⟨q, List.mem_cons_of_mem _ hq, rest⟩
+      · rintro (h | ⟨q, hq, rest⟩)
+        · exact Or.inl h
+        · rcases List.mem_cons.mp hq with h | h
+          · cases h
+          · exact Or.inr ⟨q, h, rest⟩
+
+/-- **the subscriber map of a prefix-closed index**: client `c` has a merged subscription with the disjunctive
+    property `P` iff a particle whose address matches the topic holds a subscription of `c` with `P` that the `$`
+    rule does not exclude -/
+theorem hasSub_subscribers {P : Sub → Prop} (hP : MergeOr P) (x : Index) (hpc : PrefixClosed x.nodes) (topic : Str)
+    (hne : topic ≠ []) (hnh : ∀ t ∈ splitLevels topic, t ≠ [hash]) (c : Str) :
+    HasSub P (subscribers x topic).subs c ↔
+      ∃ q n s, getNode x.nodes q = some n ∧ (c, s) ∈ n.subs ∧ matchLv q (splitLevels topic) = true ∧
+        dollarExcluded s.filter topic = false ∧ P s := by
+  unfold subscribers
+  have : topic.isEmpty = false := by cases topic <;> simp_all
+  simp only [this, Bool.false_eq_true, if_false]
+  rw [hasSub_fold hP]
+  have hscan : ∀ q, Gather.subs q ∈ scanVisits x.nodes [] (splitLevels topic) ↔
+      hasNode x.nodes q = true ∧ matchLv q (splitLevels topic) = true := by
+    intro q
+    rw [scan_iff Gather.subs mem_gatherAll_subs _ hpc _ (splitLevels_ne_nil topic) hnh]
+    simp
+  constructor
+  · rintro (⟨sub, h, _⟩ | ⟨q, hq, n, hn, s, hs, hx, hp⟩)
+    · cases h
+    · exact ⟨q, n, s, hn, hs, ((hscan q).mp hq).2, hx, hp⟩
+  · rintro ⟨q, n, s, hn, hs, hm, hx, hp⟩
+    right
+    refine ⟨q, (hscan q).mpr ⟨?_, hm⟩, n, hn, s, hs, hx, hp⟩
+    rw [hasNode_iff]
+    exact ⟨n, getNode_mem hn, getNode_path hn⟩
+
+/-! ### the `$` test of `gatherSubscriptions` and the `$` rule of the matcher -/
+
+theorem splitLevels_cons_ne (c : Nat) (rest : Str) (hc : c ≠ slash) :
+    ∃ l ls, splitLevels (c :: rest) = (c :: l) :: ls := by
+  unfold splitLevels
+  rw [if_neg hc]
+  split
+  · exact ⟨[], [], rfl⟩
+  · rename_i l ls _
+    exact ⟨l, ls, rfl⟩
+
+theorem splitLevels_cons_slash (rest : Str) : splitLevels (slash :: rest) = [] :: splitLevels rest := by
+  rw [splitLevels]
+  simp
+
+/-- on a filter whose levels match the topic's, the byte test of `gatherSubscriptions` (`topic[0] == '$'` and
+    `filter[0]` is `+` or `#`) is the `$` rule of the matcher (the first LEVEL of the filter is `+` or `#`) -/
+theorem dollarExcluded_eq_dollarRule (f topic : Str) (hm : matchLv (splitLevels f) (splitLevels topic) = true) :
+    dollarExcluded f topic = dollarRule (splitLevels f) topic := by
+  cases f with
+  | nil =>
+    unfold dollarExcluded dollarRule
+    simp [splitLevels]
+  | cons f0 fr =>
+    cases topic with
+    | nil =>
+      unfold dollarExcluded dollarRule
+      simp
+    | cons t0 tr =>
+      by_cases hs : f0 = slash
+      · subst hs
+        unfold dollarExcluded dollarRule
+        rw [splitLevels_cons_slash]
+        simp [slash, plus, hash]
+      · obtain ⟨l, ls, hf⟩ := splitLevels_cons_ne f0 fr hs
+        by_cases ht : t0 = dollar
+        · subst ht
+          obtain ⟨l', ls', htp⟩ := splitLevels_cons_ne dollar tr (by decide)
+          rw [hf, htp, matchLv_cons_cons] at hm
+          unfold dollarExcluded dollarRule
+          rw [hf]
+          by_cases hp : f0 = plus
+          · subst hp
+            have h1 : ((plus :: l) == [hash]) = false := by simp [plus, hash]
+            have h2 : ((plus :: l) == (dollar :: l')) = false := by simp [plus, dollar]
+            rw [h1] at hm
+            simp only [Bool.false_eq_true, if_false, h2, Bool.or_false, Bool.and_eq_true] at hm
+            simp [hm.1]
+          · by_cases hh : f0 = hash
+            · subst hh
+              have h1 : ((hash :: l) == [plus]) = false := by simp [plus, hash]
+              have h2 : ((hash :: l) == (dollar :: l')) = false := by simp [hash, dollar]
+              by_cases h3 : ((hash :: l) == [hash]) = true
+              · simp [h3]
+              · rw [if_neg h3, h1, h2] at hm
+                simp at hm
+            · have h1 : ((f0 :: l) == [plus]) = false := by simp [hp]
+              have h2 : ((f0 :: l) == [hash]) = false := by simp [hh]
+              simp [hp, hh, h1, h2]
+        · unfold dollarExcluded dollarRule
+          have : (t0 == dollar) = false := by simpa using ht
+          show (t0 == dollar && (f0 == plus || f0 == hash)) = ((some t0 == some dollar) && _)
+          have h2 : (some t0 == some dollar) = false := by simpa using ht
+          rw [this, h2]
+          rfl
+
+theorem specMatch_iff (f topic : Str) :
+    specMatch (splitLevels f) topic = true ↔
+      matchLv (splitLevels f) (splitLevels topic) = true ∧ dollarExcluded f topic = false := by
+  unfold specMatch
+  constructor
+  · intro h
+    have h1 : matchLv (splitLevels f) (splitLevels topic) = true := by
+      cases hm : matchLv (splitLevels f) (splitLevels topic)
+      · rw [hm] at h; cases h
+      · rfl
+    refine ⟨h1, ?_⟩
+    rw [dollarExcluded_eq_dollarRule f topic h1]
+    rw [h1] at h
+    simpa using h
+  · rintro ⟨h1, h2⟩
+    rw [dollarExcluded_eq_dollarRule f topic h1] at h2
+    rw [h1, h2]
+    rfl
+
+/-! ### in terms of the entries of the index -/
+
+/-- the index holds for client `c` the plain subscription `sub` (at the address of its filter), and the filter of
+    `sub` matches `topic` under the declarative matcher `specMatch` -/
+def MatchingSub (x : Index) (topic c : Str) (sub : Sub) : Prop :=
+  plainAt x (splitLevels sub.filter) c = some sub ∧ specMatch (splitLevels sub.filter) topic = true
+
+/-- **Step 2.** the subscriber map in terms of the index entries and the declarative matcher, for every
+    structurally sound index (`IdxOK`: kept by every index operation, hence by every history) -/
+theorem hasSub_subscribers_idx {P : Sub → Prop} (hP : MergeOr P) (x : Index) (hx : IdxOK x) (topic : Str)
+    (hne : topic ≠ []) (hnh : ∀ t ∈ splitLevels topic, t ≠ [hash]) (c : Str) :
+    HasSub P (subscribers x topic).subs c ↔ ∃ sub, MatchingSub x topic c sub ∧ P sub := by
+  rw [hasSub_subscribers hP x hx.pc topic hne hnh]
+  constructor
+  · rintro ⟨q, n, s, hn, hs, hm, hd, hp⟩
+    have hpl : plainAt x q c = some s := by
+      unfold plainAt
+      rw [hn]
+      exact assocGet_of_mem _ _ _ (hx.keys n (getNode_mem hn)).subs hs
+    have hq : splitLevels s.filter = q := by
+      rw [← plainPath_eq]; exact (hx.pos.plain q c s hpl).2
+    refine ⟨s, ⟨by rw [hq]; exact hpl, ?_⟩, hp⟩
+    rw [specMatch_iff, hq]
+    exact ⟨hm, hd⟩
+  · rintro ⟨sub, ⟨hpl, hsm⟩, hp⟩
+    obtain ⟨hm, hd⟩ := (specMatch_iff sub.filter topic).mp hsm
+    unfold plainAt at hpl
+    cases hg : getNode x.nodes (splitLevels sub.filter) with
+    | none => rw [hg] at hpl; cases hpl
+    | some n =>
+      rw [hg] at hpl
+      exact ⟨_, n, sub, hg, assocGet_mem _ _ _ hpl, hm, hd, hp⟩
+
+theorem mem_keys_iff_hasSub (m : List (Str × Sub)) (c : Str) : c ∈ m.map Prod.fst ↔ HasSub (fun _ => True) m c := by
+  unfold HasSub
+  constructor
+  · intro h
+    cases hg : assocGet m c with
+    | none => exact absurd h (assocGet_none_not_mem m c hg)
+    | some sub => exact ⟨sub, rfl, trivial⟩
+  · rintro ⟨sub, h, _⟩
+    exact List.mem_map.mpr ⟨(c, sub), assocGet_mem _ _ _ h, rfl⟩
+
+/-- a matching plain subscription is an entry of the index (`indexEntries`) with a plain filter, and conversely -/
+theorem MatchingSub.entry {x : Index} {topic c : Str} {sub : Sub} (h : MatchingSub x topic c sub) :
+    (c, sub.filter) ∈ indexEntries x :=
+  Entry.mem (Or.inl ⟨_, sub, h.1, rfl⟩)
+
+theorem matchingSub_of_entry {x : Index} (hx : IdxOK x) {topic c f : Str} (hm : (c, f) ∈ indexEntries x)
+    (hs : shareKey f = false) (hsm : specMatch (splitLevels f) topic = true) :
+    ∃ sub, MatchingSub x topic c sub ∧ sub.filter = f := by
+  rcases Entry.of_mem hx hm with ⟨q, sub, hq, hf⟩ | ⟨q, g, sub, hq, hf⟩
+  · have := (hx.pos.plain q c sub hq).2
+    rw [plainPath_eq] at this
+    exact ⟨sub, ⟨by rw [this]; exact hq, by rw [hf]; exact hsm⟩, hf⟩
+  · have := (hx.pos.shared q g c sub hq).1
+    rw [hf, hs] at this
+    cases this
+
+theorem idxOK_applyOp (x : Index) (h : IdxOK x) (op : IOp) : IdxOK (applyOp x op) := by
+  cases op with
+  | subscribe c s => exact idxOK_subscribe x h c s
+  | unsubscribe f c => exact idxOK_unsubscribe x h f c
+  | inlineSubscribe id s => exact idxOK_inlineSubscribe x h id s
+  | inlineUnsubscribe id f => exact idxOK_inlineUnsubscribe x h id f
+  | retain t p fl => exact idxOK_retainMessage x h t p fl
+
+/-- every index reached by a history of index operations is structurally sound -/
+theorem idxOK_runOps (ops : List IOp) : IdxOK (runOps ops) := by
+  unfold runOps
+  suffices ∀ x, IdxOK x → IdxOK (ops.foldl applyOp x) from this {} idxOK_empty
+  induction ops with
+  | nil => exact fun x h => h
+  | cons op rest ih => exact fun x h => ih _ (idxOK_applyOp x h op)
+
+end Mochi.Topics
+
+/-! ## Who is entitled, declaratively -/
+namespace Mochi.Broker
+open Mochi.Topics
+
+/-- **entitlement as the model implements it** (finding F03 included): connection `n` belongs to a client object
+    registered under its id `cid` that is open, not inline, whose peer is not gone; the index holds a plain
+    subscription of `cid` whose filter matches the topic; `cid` may read the topic; and it is NOT the case that
+    `cid` is the publisher and SOME matching subscription of `cid` has No Local set (the model merges the matching
+    subscriptions of a client with OR on No Local) -/
+def EntitledF03 (s : Server) (pk : Msg) (n : Nat) : Prop :=
+  ∃ cid i, (cid, i) ∈ s.clients ∧ (getObj s i).conn = n ∧ (getObj s i).isOpen = true ∧
+    (getObj s i).inline = false ∧ (getObj s i).peerGone = false ∧
+    (∃ sub, MatchingSub s.topics pk.topic cid sub) ∧ aclOk s cid pk.topic false = true ∧
+    ¬ (pk.origin = cid ∧ ∃ sub, MatchingSub s.topics pk.topic cid sub ∧ sub.noLocal = true)
+
+/-- **entitlement as C03 states it**: … holds at least one matching subscription that it is authorised to read and
+    whose No Local option does not exclude it -/
+def EntitledSpec (s : Server) (pk : Msg) (n : Nat) : Prop :=
+  ∃ cid i, (cid, i) ∈ s.clients ∧ (getObj s i).conn = n ∧ (getObj s i).isOpen = true ∧
+    (getObj s i).inline = false ∧ (getObj s i).peerGone = false ∧ aclOk s cid pk.topic false = true ∧
+    ∃ sub, MatchingSub s.topics pk.topic cid sub ∧ ¬ (sub.noLocal = true ∧ pk.origin = cid)
+
+/-- whoever the model serves is entitled in the sense of C03 -/
+theorem EntitledF03.spec {s : Server} {pk : Msg} {n : Nat} (h : EntitledF03 s pk n) : EntitledSpec s pk n := by
+  obtain ⟨cid, i, h1, h2, h3, h4, h5, ⟨sub, hsub⟩, h7, h8⟩ := h
+  exact ⟨cid, i, h1, h2, h3, h4, h5, h7, sub, hsub, fun ⟨a, b⟩ => h8 ⟨b, sub, hsub, a⟩⟩
+
+/-- the F03 situation: the publisher holds a matching subscription with No Local and a matching one without -/
+def MixedNoLocal (s : Server) (pk : Msg) : Prop :=
+  ∃ sub sub', MatchingSub s.topics pk.topic pk.origin sub ∧ sub.noLocal = true ∧
+    MatchingSub s.topics pk.topic pk.origin sub' ∧ sub'.noLocal = false
+
+/-- outside the F03 situation the model's entitlement IS the entitlement of C03 -/
+theorem entitledF03_iff_spec {s : Server} {pk : Msg} (hm : ¬ MixedNoLocal s pk) (n : Nat) :
+    EntitledF03 s pk n ↔ EntitledSpec s pk n := by
+  constructor
+  · exact EntitledF03.spec
+  · rintro ⟨cid, i, h1, h2, h3, h4, h5, h7, sub, hsub, hnl⟩
+    refine ⟨cid, i, h1, h2, h3, h4, h5, ⟨sub, hsub⟩, h7, ?_⟩
+    rintro ⟨ho, sub', hsub', hnl'⟩
+    subst ho
+    cases hs : sub.noLocal with
+    | true => exact hnl ⟨hs, rfl⟩
+    | false => exact hm ⟨sub', sub, hsub', hnl', hsub, hs⟩
+
+/-- the entry of the subscriber map in terms of the index: step 1's `EntitledVia` is `EntitledF03` -/
+theorem entitledVia_iff_F03 (s : Server) (hx : IdxOK s.topics) (pk : Msg) (hne : pk.topic ≠ [])
+    (hnh : ∀ t ∈ splitLevels pk.topic, t ≠ [hash]) (hnd : ((subscribers s.topics pk.topic).subs.map Prod.fst).Nodup)
+    (n : Nat) :
+    EntitledVia s pk (subscribers s.topics pk.topic).subs n ↔ EntitledF03 s pk n := by
+  have hkey := fun c => hasSub_subscribers_idx mergeOr_true s.topics hx pk.topic hne hnh c
+  have hnl := fun c => hasSub_subscribers_idx mergeOr_noLocal s.topics hx pk.topic hne hnh c
+  constructor
+  · rintro ⟨cid, i, sub, h1, h2, h3, h4, h5, hs, h7, h8⟩
+    have hg := assocGet_of_mem_nodup _ _ _ hnd hs
+    refine ⟨cid, i, h1, h2, h3, h4, h5, ?_, h7, ?_⟩
+    · obtain ⟨sub', hsub', _⟩ := (hkey cid).mp ⟨sub, hg, trivial⟩
+      exact ⟨sub', hsub'⟩
+    · rintro ⟨ho, hex⟩
+      obtain ⟨sub', hg', hn'⟩ := (hnl cid).mpr hex
+      rw [hg] at hg'
+      cases hg'
+      rw [hn', ho] at h8
+      simp at h8
+  · rintro ⟨cid, i, h1, h2, h3, h4, h5, ⟨sub0, hsub0⟩, h7, h8⟩
+    obtain ⟨sub, hg, _⟩ := (hkey cid).mpr ⟨sub0, hsub0, trivial⟩
+    refine ⟨cid, i, sub, h1, h2, h3, h4, h5, assocGet_mem _ _ _ hg, h7, ?_⟩
+    cases hs : sub.noLocal with
+    | false => rfl
+    | true =>
+      by_cases ho : pk.origin = cid
+      · exact absurd ⟨ho, (hnl cid).mp ⟨sub, hg, hs⟩⟩ h8
+      · simp [ho]
 
 end Mochi.Broker
